@@ -580,6 +580,10 @@ def suite(prop, rng, tier):
         rnd(MENU_MAP_CORE + scale(MENU_MAP_SERDE, 6) + MENU_SET_CORE + scale(MENU_SET_SERDE, 6), N(250, 4000), (8, 30))
     else:
         raise SystemExit("unknown property " + prop)
+    if prop not in ("C02", "C04", "C05", "C06"):
+        # every suite also carries a slice of whole-API histories: the theorems of every property rest on the
+        # same model, so a correspondence break anywhere concerns them all (those four suites draw from MENU_ALL already)
+        rnd(MENU_ALL, N(80, 800), (10, 40))
     return cases
 
 
